@@ -8,6 +8,7 @@
 -/
 import PyProb.Lemmas.RealInst
 import Mathlib.Analysis.SpecialFunctions.Log.Deriv
+import Mathlib.Analysis.Complex.Exponential
 
 namespace PyProb
 
@@ -30,5 +31,18 @@ theorem c1_le_log_two_sq : c1 ≤ (Real.log 2) ^ 2 := by
   have h1 : c1 ≤ c2 ^ 2 := by rw [c1_eq, c2_eq]; norm_num
   have h2 : c2 ^ 2 ≤ (Real.log 2) ^ 2 := pow_le_pow_left₀ c2_pos.le c2_le_log_two 2
   exact h1.trans h2
+
+/-! crude upper bounds used only by the numeric examples of C07 -/
+
+theorem log_two_le_096 : Real.log 2 ≤ 96 / 100 := by
+  rw [Real.log_le_iff_le_exp (by norm_num)]
+  have := Real.quadratic_le_exp_of_nonneg (x := 96 / 100) (by norm_num)
+  linarith
+
+theorem log_twenty_le_346 : Real.log 20 ≤ 346 / 100 := by
+  rw [Real.log_le_iff_le_exp (by norm_num)]
+  have := Real.sum_le_exp_of_nonneg (x := 346 / 100) (by norm_num) 5
+  refine le_trans ?_ this
+  norm_num [Finset.sum_range_succ, Nat.factorial]
 
 end PyProb
